@@ -109,8 +109,12 @@ def py_parser_skeleton(fname):
             continue
         for pp_ in re.finditer(r"self\.precpred\(self\._ctx, (\d+)\)", line):
             out[cur].append(("precpred", int(pp_.group(1))))
-        for mm in re.finditer(r"self\.state = (\d+)|self\.match\(blackbirdParser\.(\w+)\)|self\.(\w+)\((\d*)\)|adaptivePredict\(self\._input,(\d+),", line):
-            if mm.group(1):
+        for mm in re.finditer(r"self\.state = (\d+)|self\.match\(blackbirdParser\.(\w+)\)|self\.(\w+)\((\d*)\)|adaptivePredict\(self\._input,(\d+),|(self\._input\.LA\(1\))|_la\s*==\s*blackbirdParser\.(\w+)", line):
+            if mm.group(6):
+                out[cur].append(("la",))          # a lookahead read: a token test after it looks at THIS token
+            elif mm.group(7):
+                out[cur].append(("test", mm.group(7)))
+            elif mm.group(1):
                 out[cur].append(("state", int(mm.group(1))))
             elif mm.group(2):
                 out[cur].append(("match", mm.group(2)))
@@ -138,8 +142,12 @@ def cpp_parser_skeleton(fname):
             continue
         for pp_ in re.finditer(r"precpred\(_ctx, (\d+)\)", line):
             out[cur].append(("precpred", int(pp_.group(1))))
-        for mm in re.finditer(r"setState\((\d+)\)|match\(blackbirdParser::(\w+)\)|(?<![\w:.>])(\w+)\((\d*)\);|adaptivePredict\(_input, (\d+),", line):
-            if mm.group(1):
+        for mm in re.finditer(r"setState\((\d+)\)|match\(blackbirdParser::(\w+)\)|(?<![\w:.>])(\w+)\((\d*)\);|adaptivePredict\(_input, (\d+),|(_input->LA\(1\))|_la\s*==\s*blackbirdParser::(\w+)", line):
+            if mm.group(6):
+                out[cur].append(("la",))
+            elif mm.group(7):
+                out[cur].append(("test", mm.group(7)))
+            elif mm.group(1):
                 out[cur].append(("state", int(mm.group(1))))
             elif mm.group(2):
                 out[cur].append(("match", mm.group(2)))
